@@ -76,8 +76,10 @@ impl RefSearch {
     }
 
     pub fn eval(&mut self, p: &Pos) -> i32 {
+        // a fresh evaluator per leaf: the reference value is the pure function C14 speaks about,
+        // whatever a long-lived evaluator inside the engine may have seen before
         let b = eng::to_board(p);
-        self.evaluator.evaluate(&b)
+        Evaluator::new().evaluate(&b)
     }
 
     /// The tactical move set of the property C17 (computed entirely by the reference).
